@@ -15,7 +15,10 @@ MPatch == IsEvent("Patch") /\ last' = Logged /\ hist' = <<[op |-> "Patch"]>> /\ 
 LoggedA == [op |-> "Again", built |-> E.res.built, o |-> E.res.o, l |-> E.res.l]
 SAgain == IsEvent("Again") /\ Again /\ last' = LoggedA
 MAgain == IsEvent("Again") /\ last' = LoggedA /\ hist' = Append(hist, [op |-> "Again"]) /\ UNCHANGED <<opt, lst>>
-TraceNext == Reset \/ (Strict /\ (SPatch \/ SAgain)) \/ (~Strict /\ (MPatch \/ MAgain))
+LoggedB == [op |-> "Built", built |-> E.res.built, o |-> E.res.o, l |-> E.res.l]
+SBuilt == IsEvent("Built") /\ Built(E.fmt) /\ last' = LoggedB
+MBuilt == IsEvent("Built") /\ last' = LoggedB /\ hist' = Append(hist, [op |-> "Built", fmt |-> E.fmt]) /\ UNCHANGED <<opt, lst>>
+TraceNext == Reset \/ (Strict /\ (SPatch \/ SAgain \/ SBuilt)) \/ (~Strict /\ (MPatch \/ MAgain \/ MBuilt))
 TraceSpec == TraceInit /\ [][TraceNext]_tvars
 TraceAccepted == TLCGet("stats").diameter - 1 = Len(TraceLog)
 =============================================================================
